@@ -255,8 +255,35 @@ def strings(res):
     for _ in range(30000 if thorough else 4000):
         m = "".join(rng.choice("0123456789") for _ in range(rng.randint(1, 20)))
         out.append(rng.choice(["", "-", "+"]) + m[:rng.randint(0, len(m))] + "." + m[rng.randint(0, len(m)):] + rng.choice(["", "e%d" % rng.randint(-330, 330), "E+%d" % rng.randint(0, 20)]))
+    out += halfway_strings(rng, 6000 if thorough else 1200)
     seen = set()
     return [s for s in out if not (s in seen or seen.add(s))]
+
+
+def halfway_strings(rng, n):
+    """Long decimal strings at and next to the midpoint between two adjacent doubles (correct rounding needs all digits)."""
+    from decimal import Decimal, getcontext
+    getcontext().prec = 1200
+    out = []
+    for _ in range(n):
+        k = rng.random()
+        if k < .4:
+            b = rng.getrandbits(64) & 0x7FFFFFFFFFFFFFFF
+        elif k < .7:
+            b = bits(float(rng.randrange(1, 2 ** 53)))
+        else:
+            b = bits(rng.uniform(0.001, 1000.0))
+        x, y = fb(b), fb(b + 1)
+        if x != x or y != y or abs(y) == float("inf") or x == 0:
+            continue
+        mid = (Decimal(x) + Decimal(y)) / 2
+        eps = Decimal(10) ** (mid.adjusted() - rng.randint(25, 60))
+        for v in (mid, mid + eps, mid - eps):
+            txt = format(v, "f") if -30 < v.adjusted() < 40 else format(v, "e")
+            out.append(txt)
+            if rng.random() < .2:
+                out.append("-" + txt)
+    return out
 
 
 def hexstrings(res, dbl):
